@@ -18,7 +18,7 @@ theory is incomplete, hence a failed proof is never reported as a violation (see
 """
 import itertools
 import z3
-from .sym import (SInt, SBool, Unsupported, ctx, lift, to_term, to_bterm, local_paths, LocalRaise,
+from .sym import (isi, SInt, SBool, Unsupported, ctx, lift, to_term, to_bterm, local_paths, LocalRaise,
                   is_sym, site)
 
 
@@ -75,9 +75,9 @@ class Seq:
             self._push(s)
 
     def _push(self, s):
-        if isinstance(s, GenToken):
+        if isi(s, GenToken):
             s = s.gen
-        if isinstance(s, Gen):
+        if isi(s, Gen):
             g = z3.simplify(s.guard)
             if z3.is_false(g):
                 return
@@ -87,11 +87,11 @@ class Seq:
 
     @property
     def abstract(self):
-        return any(isinstance(s, Gen) for s in self.segs)
+        return any(isi(s, Gen) for s in self.segs)
 
     def __iter__(self):
         for s in self.segs:
-            yield GenToken(s) if isinstance(s, Gen) else s[1]
+            yield GenToken(s) if isi(s, Gen) else s[1]
 
     def concrete_list(self):
         if self.abstract:
@@ -121,18 +121,18 @@ class Seq:
         return Seq(list(self))
 
     def __getitem__(self, k):
-        if isinstance(k, slice):
+        if isi(k, slice):
             if self.abstract:
                 raise Unsupported("slice of an abstract sequence")
             return Seq(self.concrete_list()[k])
-        if isinstance(k, int):
+        if isi(k, int):
             if not self.abstract:
                 return self.concrete_list()[k]
             raise Unsupported("positional indexing into an abstract sequence (order is abstracted)")
         raise Unsupported("symbolic index into a sequence")
 
     def __setitem__(self, k, v):
-        if self.abstract or not isinstance(k, int):
+        if self.abstract or not isi(k, int):
             raise Unsupported("item assignment into an abstract sequence")
         ctx().stores.append(("seq", self, "setitem"))
         self.segs[k] = ("e", v)
@@ -152,26 +152,26 @@ class Seq:
         raise Unsupported("list.index on a symbolic sequence")
 
     def __repr__(self):
-        return "Seq[" + ", ".join("Gen(%s|%s)" % (s.base.name, s.guard) if isinstance(s, Gen) else repr(s[1])
+        return "Seq[" + ", ".join("Gen(%s|%s)" % (s.base.name, s.guard) if isi(s, Gen) else repr(s[1])
                                   for s in self.segs) + "]"
 
 
 def has_abstract(x):
-    if isinstance(x, Seq):
+    if isi(x, Seq):
         return x.abstract
-    if isinstance(x, GenToken):
+    if isi(x, GenToken):
         return True
-    if isinstance(x, (list, tuple)):
-        return any(isinstance(e, GenToken) for e in x)
+    if isi(x, (list, tuple)):
+        return any(isi(e, GenToken) for e in x)
     return False
 
 
 def to_seq(x):
-    if isinstance(x, Seq):
+    if isi(x, Seq):
         return x
-    if isinstance(x, GenToken):
+    if isi(x, GenToken):
         return Seq([x])
-    if isinstance(x, (str, bytes, dict)):
+    if isi(x, (str, bytes, dict)):
         raise Unsupported(f"to_seq of {type(x).__name__}")
     try:
         return Seq(list(x))
@@ -182,7 +182,7 @@ def to_seq(x):
 def seq_or_list(items):
     """Return a plain list when nothing is abstract (maximal fidelity), else a Seq."""
     items = list(items)
-    if any(isinstance(e, GenToken) for e in items):
+    if any(isi(e, GenToken) for e in items):
         return Seq(items)
     return items
 
@@ -192,65 +192,67 @@ def seq_or_list(items):
 # ------------------------------------------------------------------------------------------------
 
 class Cases:
-    """A value that is one of several Python values depending on symbolic conditions (if-then-else object)."""
+    """A value that is one of several Python values depending on symbolic conditions (if-then-else object).
+
+    It only ever lives inside the element of a Gen, i.e. it is only touched inside a generic application, where
+    branching is local: every use picks the applicable case by (local) branching on the case conditions."""
+    _pyvc_proxy = True
 
     def __init__(self, pairs):
         object.__setattr__(self, "_pairs", pairs)  # [(z3 Bool, value)]
 
-    def _map(self, f):
+    def _pick(self):
         c = ctx()
+        pairs = object.__getattribute__(self, "_pairs")
+        for cond, v in pairs[:-1]:
+            if c.branch(cond):
+                return v
+        cond, v = pairs[-1]
+        if c.branch(cond):
+            return v
+        from .sym import PathAbort
+        raise PathAbort()
 
-        def run():
-            for cond, v in self._pairs:
-                if c.branch(cond):
-                    return f(v)
-            raise Unsupported("Cases: no case applies")
-        return merge(local_paths(run))
+    @property
+    def __class__(self):
+        return self._pick().__class__
 
     def __getattr__(self, name):
-        if name.startswith("__") and name not in ("__class__",):
-            raise AttributeError(name)
-        vals = []
-        c = ctx()
-        for cond, v in self._pairs:
-            c.frames.append(_assume_frame(cond))
-            try:
-                vals.append((cond, getattr(v, name)))
-            finally:
-                c.frames.pop()
-        if all(callable(v) and not isinstance(v, type) for _, v in vals):
-            def dispatch(*a, **k):
-                out = []
-                for cond, m in vals:
-                    for lc, r in local_paths(lambda: m(*a, **k), assumptions=[cond]):
-                        out.append((z3.And(cond, lc), r))
-                return merge(out)
-            return dispatch
-        return merge(vals)
+        return getattr(self._pick(), name)
 
     def __setattr__(self, name, value):
         raise Unsupported("store through a merged (Cases) object")
 
     def __eq__(self, o):
-        return self._map(lambda v: v == o)
+        return self._pick() == o
 
     def __ne__(self, o):
-        return self._map(lambda v: v != o)
+        return self._pick() != o
 
     def __lt__(self, o):
-        return self._map(lambda v: v < o)
+        return self._pick() < o
+
+    def __getitem__(self, k):
+        return self._pick()[k]
 
     def __hash__(self):
         raise Unsupported("hash of merged object")
 
     def __iter__(self):
-        raise Unsupported("iteration over a merged (Cases) object")
+        return iter(self._pick())
 
     def __bool__(self):
-        raise Unsupported("truth value of a merged (Cases) object")
+        return bool(self._pick())
 
     def __repr__(self):
-        return "Cases(" + "; ".join(f"{c} -> {v!r:.40}" for c, v in self._pairs) + ")"
+        return "Cases(" + "; ".join(f"{c} -> {v!r:.40}" for c, v in object.__getattribute__(self, "_pairs")) + ")"
+
+
+def unwrap(x):
+    """the applicable case of a merged value (local branching); identity for anything else"""
+    while type(x) is Cases:
+        x = x._pick()
+    return x
 
 
 def _assume_frame(cond):
@@ -260,8 +262,8 @@ def _assume_frame(cond):
 
 def cases_of(x):
     """[(cond, value)] view of any value"""
-    if isinstance(x, Cases):
-        return list(x._pairs)
+    if type(x) is Cases:
+        return list(object.__getattribute__(x, '_pairs'))
     return [(z3.BoolVal(True), x)]
 
 
@@ -269,11 +271,11 @@ def merge(pairs):
     """[(cond, value)] -> one value.  Conditions are assumed exhaustive and exclusive (decision tree leaves)."""
     flat = []
     for cond, v in pairs:
-        if isinstance(v, LocalRaise):
+        if isi(v, LocalRaise):
             raise Unsupported(f"element-level exception inside a generic application: "
                               f"{type(v.exc).__name__}: {v.exc}")
-        if isinstance(v, Cases):
-            for c2, v2 in v._pairs:
+        if type(v) is Cases:
+            for c2, v2 in object.__getattribute__(v, "_pairs"):
                 flat.append((z3.simplify(z3.And(cond, c2)), v2))
         else:
             flat.append((cond, v))
@@ -284,15 +286,15 @@ def merge(pairs):
     if all(v is first for _, v in flat):
         return first
     scal = (SInt, SBool, int, bool)
-    if all(isinstance(v, scal) for _, v in flat):
-        if all(isinstance(v, (SBool, bool)) for _, v in flat):
+    if all(isi(v, scal) for _, v in flat):
+        if all(isi(v, (SBool, bool)) for _, v in flat):
             t = to_bterm(flat[-1][1])
             for c, v in reversed(flat[:-1]):
                 t = z3.If(c, to_bterm(v), t)
             return lift(t)
         from .sym import SId
-        if any(isinstance(v, SId) for _, v in flat):
-            if not all(isinstance(v, SId) for _, v in flat):
+        if any(isi(v, SId) for _, v in flat):
+            if not all(isi(v, SId) for _, v in flat):
                 raise Unsupported("merge of id and non-id scalars")
             t = flat[-1][1].t
             for c, v in reversed(flat[:-1]):
@@ -304,7 +306,7 @@ def merge(pairs):
         return lift(t)
     if any(v is None for _, v in flat):
         raise Unsupported("merge of None with non-None values (identity tests would be unsound)")
-    if all(isinstance(v, tuple) for _, v in flat) and len({len(v) for _, v in flat}) == 1:
+    if all(isi(v, tuple) for _, v in flat) and len({len(v) for _, v in flat}) == 1:
         k = len(first)
         return tuple(merge([(c, v[j]) for c, v in flat]) for j in range(k))
     # group identical objects
@@ -338,7 +340,7 @@ def seq_map(f, s):
     s = to_seq(s)
     out = []
     for seg in s.segs:
-        if isinstance(seg, Gen):
+        if isi(seg, Gen):
             out.append(Gen(seg.base, seg.guard, apply_generic(f, seg)))
         else:
             out.append(f(seg[1]))
@@ -349,7 +351,7 @@ def seq_filter(p, s):
     s = to_seq(s)
     out = []
     for seg in s.segs:
-        if isinstance(seg, Gen):
+        if isi(seg, Gen):
             r = apply_generic((lambda e: _truthy(p(e))) if p is not None else _truthy, seg)
             out.append(Gen(seg.base, z3.And(seg.guard, to_bterm(r)), seg.elem))
         else:
@@ -361,9 +363,9 @@ def seq_filter(p, s):
 
 def _truthy(v):
     """truth value of v *without* forcing a fork when it is already symbolic"""
-    if isinstance(v, (SBool, bool)):
+    if isi(v, (SBool, bool)):
         return v
-    if isinstance(v, SInt):
+    if isi(v, SInt):
         return lift(v.t != 0)
     return bool(v)
 
@@ -395,9 +397,9 @@ def seq_sum(s, f=None, start=0):
     s = to_seq(s)
     total = start
     for seg in s.segs:
-        if isinstance(seg, Gen):
+        if isi(seg, Gen):
             v = apply_generic(f, seg) if f is not None else seg.elem
-            if isinstance(v, tuple):
+            if isi(v, tuple):
                 raise Unsupported("sum of tuples over an abstract sequence")
             t = z3.simplify(z3.If(seg.guard, to_term(v), z3.IntVal(0)))
             if z3.is_int_value(t) and t.as_long() == 0:
@@ -446,19 +448,61 @@ def seq_all(s, p=None):
 # sigma theory: region / basis analysis
 # ------------------------------------------------------------------------------------------------
 
+_MENTION_CACHE = {}
+
+
+class FastSubst:
+    """z3.substitute with the (from, to) arrays built once (the Python wrapper re-validates every pair per call)"""
+
+    def __init__(self, pairs):
+        self.n = len(pairs)
+        self.pairs = pairs
+        if self.n:
+            self.ctx = pairs[0][0].ctx
+            self._from = (z3.Ast * self.n)(*[a.as_ast() for a, _ in pairs])
+            self._to = (z3.Ast * self.n)(*[b.as_ast() for _, b in pairs])
+            self.ids = [a for a, _ in pairs]
+
+    def __call__(self, t):
+        if not self.n:
+            return t
+        if not any(_mentions(t, a) for a in self.ids):
+            return t
+        return z3.z3._to_expr_ref(z3.Z3_substitute(self.ctx.ref(), t.as_ast(), self.n, self._from, self._to), self.ctx)
+
+
+
 def _mentions(t, v):
+    """does term t contain the constant v?  (memoised per (t, v); the cache keeps the terms alive so that AST ids
+    stay valid)"""
     vid = v.get_id()
-    seen = set()
-    stack = [t]
+    tab = _MENTION_CACHE.setdefault(vid, {})
+    root = t.get_id()
+    hit = tab.get(root)
+    if hit is not None:
+        return hit[1]
+    # iterative post-order with memo
+    stack = [(t, False)]
     while stack:
-        x = stack.pop()
-        if x.get_id() in seen:
+        x, expanded = stack.pop()
+        xid = x.get_id()
+        if xid in tab:
             continue
-        seen.add(x.get_id())
-        if x.get_id() == vid:
-            return True
-        stack.extend(x.children())
-    return False
+        if xid == vid:
+            tab[xid] = (x, True)
+            continue
+        ch = x.children()
+        if not ch:
+            tab[xid] = (x, False)
+            continue
+        if not expanded:
+            stack.append((x, True))
+            for c_ in ch:
+                if c_.get_id() not in tab:
+                    stack.append((c_, False))
+        else:
+            tab[xid] = (x, any(tab[c_.get_id()][1] for c_ in ch))
+    return tab[root][1]
 
 
 _BOOL_CONN = (z3.Z3_OP_AND, z3.Z3_OP_OR, z3.Z3_OP_NOT, z3.Z3_OP_IMPLIES, z3.Z3_OP_ITE, z3.Z3_OP_XOR)
@@ -492,7 +536,20 @@ def _bool_atoms(t, ivar, acc):
     walk(t, z3.is_bool(t))
 
 
+_LIN_CACHE = {}
+
+
 def _linear(t, ivar):
+    key = (t.get_id(), ivar.get_id())
+    hit = _LIN_CACHE.get(key)
+    if hit is not None:
+        return hit[1]
+    r = _linear0(t, ivar)
+    _LIN_CACHE[key] = (t, r)
+    return r
+
+
+def _linear0(t, ivar):
     """decompose Int term into {unknown_id: (unknown_term, coef_term)} + const_term, w.r.t. ivar.
 
     Unknowns are maximal subterms mentioning ivar that are not +,-,*(by ivar-free factor).
@@ -584,25 +641,50 @@ class SigmaTheory:
         self._memo = {}
 
     def __call__(self, c, formulas):
-        out = []
-        # pointwise facts instantiated at every index term in use
-        for ivar, phi in c.pointwise:
-            base = c.bases.get(ivar.get_id())
-            if base is None:
-                continue
-            out.append(z3.Implies(base.inrange(), phi))
-            for k in c.index_terms.get(base.name, []):
-                out.append(z3.Implies(base.inrange(k), z3.substitute(phi, (ivar, k))))
+        # pointwise facts instantiated at the generic index and at every index term in use (cached per context)
+        pk = (len(c.pointwise), sum(len(v) for v in c.index_terms.values()), id(c))
+        cache = c.__dict__.setdefault("_pw_inst", {})
+        if cache.get("key") != pk:
+            inst = []
+            for ivar, phi in c.pointwise:
+                base = c.bases.get(ivar.get_id())
+                if base is None:
+                    continue
+                inst.append(z3.Implies(base.inrange(), phi))
+                for k in c.index_terms.get(base.name, []):
+                    inst.append(z3.Implies(base.inrange(k), z3.substitute(phi, (ivar, k))))
+            cache["key"] = pk
+            cache["inst"] = inst
+        out = list(cache["inst"])
         folds = getattr(c, "folds", {})
         if folds:
-            used = _consts_in(formulas)
-            rel = {k: v for k, v in folds.items() if v[0].get_id() in used}
+            symids = {v[0].get_id(): k for k, v in folds.items()}
+            used = set()
+            for f in formulas:
+                used |= _fold_syms(f, symids)
+            rel = {symids[i]: folds[symids[i]] for i in used}
             if rel:
-                key = (tuple(sorted(rel.keys())), tuple(p.get_id() for _, p in c.pointwise))
-                if key not in self._memo:
-                    self._memo[key] = self._sigma(c, rel)
-                out.extend(self._memo[key])
+                pwk = self._pw_key(c)
+                relset = frozenset(rel.keys())
+                hit = None
+                for (ks, pk2), facts in self._memo.items():
+                    if pk2 == pwk and relset <= ks:
+                        hit = facts
+                        break
+                if hit is None:
+                    hit = self._sigma(c, rel)
+                    self._memo[(relset, pwk)] = hit
+                out.extend(hit)
         return out
+
+    def _pw_key(self, c):
+        """structural key of the pointwise facts (AST ids are not stable across contexts)"""
+        cache = c.__dict__.setdefault("_pw_keys", {})
+        n = len(c.pointwise)
+        if cache.get("n") != n:
+            cache["n"] = n
+            cache["key"] = _h("|".join(p.sexpr() for _, p in c.pointwise))
+        return cache["key"]
 
     def _sigma(self, c, folds):
         self.stats["analyses"] += 1
@@ -664,6 +746,7 @@ class SigmaTheory:
                 facts.append(C >= 0)
                 subst = [(a, z3.BoolVal(True)) if not z3.is_not(l) else (a, z3.BoolVal(False))
                          for a, l in zip(atoms, lits)]
+                fsub = FastSubst(subst)
                 basis = {}
 
                 def B(u):
@@ -673,7 +756,7 @@ class SigmaTheory:
                         facts.append(z3.Implies(C == 0, b == 0))
                     return basis[u.get_id()][1]
                 for sym, t in terms:
-                    tr = z3.simplify(z3.substitute(t, *subst)) if subst else z3.simplify(t)
+                    tr = z3.simplify(fsub(t))
                     lin = _linear(tr, J)
                     if lin is None:
                         raise Unsupported(f"sigma theory: non-linear summand after region substitution: {tr}")
@@ -688,21 +771,52 @@ class SigmaTheory:
                 known = set(basis.keys())
                 solver.push()
                 solver.add(*lits)
-                # candidate pointwise linear facts whose unknowns all occur in this region's basis
+                # (1) arithmetic region literals hold pointwise in the region: sum them
+                for l in lits:
+                    if _is_arith_lit(l):
+                        lu = _atom_unknowns(l, J)
+                        if lu and lu <= known:
+                            sf = self._sum_atom(z3.simplify(l), J, C, B)
+                            if sf is not None:
+                                facts.append(sf)
+                # a few models of the region: a candidate falsified by one of them cannot be entailed
+                models = []
+                r, m = check()
+                if r == z3.sat:
+                    models.append(m)
+
+                def entailed(lit):
+                    for mm in models:
+                        if z3.is_false(mm.eval(lit, model_completion=True)):
+                            return False
+                    r, m2 = check(z3.Not(lit))
+                    if r == z3.sat and len(models) < 8:
+                        models.append(m2)
+                    return r == z3.unsat
+                # (2) syntactic candidates: linear atoms of the pointwise facts over this region's unknowns
                 for a in cand:
-                    ar = z3.simplify(z3.substitute(a, *subst)) if subst else a
+                    ar = fsub(a)
+                    if ar is not a:
+                        ar = z3.simplify(ar)
                     if z3.is_true(ar) or z3.is_false(ar):
                         continue
                     lin = _atom_unknowns(ar, J)
-                    if lin is None or not lin or not lin <= known:
+                    if not lin or not lin <= known:
                         continue
                     for lit in (ar, z3.Not(ar)):
-                        r, _ = check(z3.Not(lit))
-                        if r == z3.unsat:
+                        if entailed(lit):
                             sf = self._sum_atom(lit, J, C, B)
                             if sf is not None:
                                 facts.append(sf)
                             break
+                # (3) semantic pairwise order between the region's unknowns (chains through terms that occur in no
+                #     fold, e.g. ihi = hi.d = lo.d, are found here)
+                us = [u for u, _ in basis.values()]
+                for x in range(len(us)):
+                    for y in range(len(us)):
+                        if x != y and z3.is_int(us[x]) and z3.is_int(us[y]):
+                            if entailed(us[x] <= us[y]):
+                                facts.append(B(us[x]) <= B(us[y]))
                 # constant unknowns
                 r, m = check()
                 if r == z3.sat:
@@ -758,6 +872,34 @@ class SigmaTheory:
         return None
 
 
+_FS_CACHE = {}
+
+
+def _fold_syms(f, symids):
+    """ids of fold symbols occurring in formula f (cached per formula AST; fold symbols are Int constants whose
+    names start with 'sum[')"""
+    fid = f.get_id()
+    hit = _FS_CACHE.get(fid)
+    if hit is None:
+        found = set()
+        seen = set()
+        stack = [f]
+        while stack:
+            x = stack.pop()
+            i = x.get_id()
+            if i in seen:
+                continue
+            seen.add(i)
+            if z3.is_const(x):
+                if x.decl().kind() == z3.Z3_OP_UNINTERPRETED and x.decl().name().startswith("sum["):
+                    found.add(i)
+                continue
+            stack.extend(x.children())
+        hit = (f, frozenset(found))   # keep f alive so that the id stays valid
+        _FS_CACHE[fid] = hit
+    return {i for i in hit[1] if i in symids}
+
+
 def _consts_in(formulas):
     seen = set()
     stack = list(formulas)
@@ -781,6 +923,14 @@ def _atom_unknowns(a, J):
     if lin is None:
         return None
     return set(lin[0].keys())
+
+
+def _is_arith_lit(l):
+    a = l.arg(0) if z3.is_not(l) else l
+    if not z3.is_app(a) or a.num_args() != 2:
+        return False
+    k = a.decl().kind()
+    return k in (z3.Z3_OP_LE, z3.Z3_OP_GE, z3.Z3_OP_LT, z3.Z3_OP_GT) or (k == z3.Z3_OP_EQ and z3.is_int(a.arg(0)))
 
 
 def _short_s(s):
